@@ -104,7 +104,12 @@ func checkBeaconMaxSlots(ctx sdk.Context, tx sdk.FeeTx, bk BeaconKeeper) error {
 				purchaseData[beaconId] = b{max: maxCanPurchase, want: numSlots}
 			} else {
 				pd := purchaseData[beaconId]
-				pd.want = pd.want + numSlots
+				if pd.want+numSlots < pd.want {
+					// overflow: more than any maximum
+					pd.want = ^uint64(0)
+				} else {
+					pd.want = pd.want + numSlots
+				}
 				purchaseData[beaconId] = pd
 			}
 		}
